@@ -2,6 +2,7 @@ import SeqVerif.Base.Proto
 import SeqVerif.Model.Pruning
 import SeqVerif.Model.C14Consts
 import SeqVerif.Model.SearchDocs
+import SeqVerif.Model.C03Codec
 /-!
 Driver for C14.  Numbers are decimal; times and durations are nanoseconds (`Int`), MIDs are `Nat`; bitmaps are hex.
 A matrix over probes `p_0..p_k` is `row_0,row_1,..` with `row_i[j]` = answer for `(p_i, p_j)`: `0`/`1`/`p` (panic).
@@ -203,6 +204,14 @@ def step (line : String) : String :=
         let surv := survivors ((hist.getD i []).map Prod.fst) r.2
         s!"{(collectorStats surv).1}/{(collectorStats surv).2}/{r.2.length}/{fmtIDs surv}"
       s!"ok {fmtList id steps ";"}"
+    | none => "bad-op"
+  | ["midsrt", mids] =>
+    -- `midsrt <mids>`: DiskIDsBlock.packMIDs then UnpackCache.unpackMIDs (C03's codec model) -> `ok <packed bytes> <mids>`
+    match natList? mids with
+    | some ms =>
+      match SV.C03.unpackDeltas (SV.C03.packDeltas ms) with
+      | some r => s!"ok {(SV.C03.packDeltas ms).length} {fmtNats r}"
+      | none => "panic"
     | none => "bad-op"
   | ["ensured", desc, ids, next] =>
     -- `ensured <desc 0|1> <ids mid.rid,..> <from:to | none>`: calcEnsuredIDsCount(ids, [next fraction], order) -> `ok n`
